@@ -986,6 +986,51 @@ def rule_r8(prog, res):
     res.floor('R8', 'derived max_str_len assignments', n, 1)
 
 
+# ------------------------------------------------------------------- R9
+def rule_r9(prog, res):
+    res.rule('R9', 'no reader hands out the instance before the occurrence '
+             'check')
+    n = 0
+    for cfq, nm in ((XML, 'complex_from_element'), (HIER, '_doc_to_object')):
+        f = prog.cls(cfq).methods.get(nm)
+        if f is None:
+            raise AnalysisError('%s.%s' % (cfq, nm), 'not found')
+        inst = [a for a in walk_no_defs(f.node) if isinstance(a, ast.Assign)
+                and isinstance(a.value, ast.Call) and call_name(a.value) ==
+                'get_deserialization_instance' and isinstance(
+                    a.targets[0], ast.Name)]
+        if not inst:
+            raise AnalysisError('%s.%s' % (cfq, nm), 'instance creation not '
+                                'found')
+        var = inst[0].targets[0].id
+        checks = [x for x in walk_no_defs(f.node) if (
+            isinstance(x, ast.If) and 'min_occurs' in unparse(x.test)) or (
+            isinstance(x, ast.Call) and call_name(x) == '_check_freq_dict')]
+        if not checks:
+            continue     # reported by R2
+        chk = min(c.lineno for c in checks)
+        for r in walk_no_defs(f.node):
+            if not (isinstance(r, ast.Return) and isinstance(
+                    r.value, ast.Name) and r.value.id == var):
+                continue
+            n += 1
+            where = '%s:%d' % (f.module.relpath, r.lineno)
+            ok = r.lineno > chk
+            res.ob('R9', where, '%s: return %s %s the occurrence check at '
+                   'line %d' % (f.qualname, var, 'after' if ok else 'BEFORE',
+                                chk), 'ok' if ok else 'VIOLATED')
+            if not ok:
+                g = [unparse(e)[:50] for e, _ in flatten_guards(
+                    guards_at(r, stop=f.node))]
+                res.finding('R9', '%s|early-return|%s' % (f.qualname, g),
+                            where, '%s returns the instance under %s before '
+                            'the min_occurs/max_occurs test: a request '
+                            'omitting mandatory members (e.g. an empty '
+                            'element) is accepted under soft validation' % (
+                                f.qualname, g))
+    res.floor('R9', 'returns of the deserialised instance', n, 2)
+
+
 def run(prog, res, tier):
     res.run_rule(rule_r1, prog, res)
     res.run_rule(rule_r2, prog, res)
@@ -995,6 +1040,7 @@ def run(prog, res, tier):
     res.run_rule(rule_r6, prog, res)
     res.run_rule(rule_r7, prog, res)
     res.run_rule(rule_r8, prog, res)
+    res.run_rule(rule_r9, prog, res)
 
 
 _X = 'spyne/protocol/xml.py'
@@ -1008,6 +1054,12 @@ _I = 'spyne/protocol/_inbase.py'
 _SI = 'spyne/protocol/dictdoc/simple.py'
 
 MUTANTS = [
+    Mutant('empty-element-fast-path', 'R9', 'fire', _X,
+           in_func('XmlDocument.complex_from_element',
+                   "        # parse input to set incoming data to related "
+                   "attributes.\n",
+                   "        if len(elt) == 0 and len(elt.attrib) == 0:\n"
+                   "            return inst\n"), 'early-return'),
     Mutant('count-after-attr-loop', 'R2', 'fire', _X,
            in_func('XmlDocument.complex_from_element',
                    r"(            frequencies\[key\] \+= 1\n)(.*?)"
